@@ -207,7 +207,7 @@ static void run_sequence (const int *seq, int n, int wfd)
   int chunks2 = 0, chunks4 = 0, regs2 = 0, regs4 = 0, fds2 = 0, fds4 = 0;
   char out[700];
   v_install_handlers ();
-  alarm (30);
+  alarm (120);	/* wall-clock backstop only: generous, so that a loaded machine cannot turn it into an alarm */
   for (rep = 1; rep <= 4 && !rc; rep++) {
     Model m;
     memset (&m, 0, sizeof (m));
